@@ -1,4 +1,5 @@
 import PlushModel
+import PlushProofs.Lib.EvalKeepsCur
 import PlushProofs.Props.C10
 /-!
   C09 — names bound inside for / function / partial / contentOf scopes never leak or clobber.
@@ -73,5 +74,23 @@ theorem C09_set_local (k : Bytes) (v : Val) (s : ES) (d : Nat) (hd : d ≠ s.cur
   cases hf : s.store.frames[s.cur]? with
   | none => rfl
   | some f => simp [Array.getElem?_setIfInBounds, Ne.symm hd]
+
+/-! ### Evaluator-wide: the current context is restored everywhere (proof in `PlushProofs/Lib/EvalKeepsCur.lean`) -/
+
+/-- EVERY EVALUATOR FUNCTION LEAVES THE CURRENT CONTEXT WHAT IT WAS — on success and on error — for every
+    program, every data and every fuel: expressions, statements, blocks, loops (all three iteration forms),
+    user-function calls, argument binding, block helpers, contentFor/contentOf, partials with layouts, nested
+    renders. All 27 functions of the evaluator's mutual recursion are walked by one tactic (`keepscur_ih`); the
+    only two places that switch contexts by hand (`withCtx`, `renderIn`) are proved to switch back. So no scope
+    a construct opens can stay current after the construct ends: names bound inside it cannot leak that way. -/
+theorem C09_context_restored_everywhere (fuel : Nat) : AllCur fuel := allCur fuel
+
+/-- instance: any expression, in any state -/
+theorem C09_expr_restores_context (fuel : Nat) (e : Option Expr) (s : ES) (h : settledR (evalExpr fuel e s).1) :
+    (evalExpr fuel e s).2.cur = s.cur := (allCur fuel).evalExpr e s h
+
+/-- instance: a whole render started in context `ctx` comes back with the caller's context -/
+theorem C09_render_restores_context (fuel : Nat) (src : Bytes) (ctx : Nat) (s : ES) (h : settledR (renderIn fuel src ctx s).1) :
+    (renderIn fuel src ctx s).2.cur = s.cur := (allCur fuel).renderIn src ctx s h
 
 end Plush
